@@ -22,11 +22,15 @@ W=/tmp/qv-$NAME
 export CARGO_NET_OFFLINE=true CARGO_TERM_COLOR=never
 export CARGO_TARGET_DIR=${MUT_TARGET:-/tmp/qv-target}
 
+# PHASE=confirm: step 1 only (several may run in parallel with different MUT_TARGET directories);
+# PHASE=checks: steps 2 and 3 for a change confirmed earlier; default: everything.
+PHASE=${PHASE:-all}
 [ -f "$SRC/patch.diff" ] || { echo "no patch.diff in $SRC"; exit 2; }
 mkdir -p "$OUT"
 LOG=$OUT/confirm.log
-: >"$LOG"
 say() { echo "$*" | tee -a "$LOG"; }
+if [ "$PHASE" != checks ]; then
+: >"$LOG"
 
 git -C /repo worktree remove --force "$W" >/dev/null 2>&1
 rm -rf "$W"
@@ -87,6 +91,13 @@ if [ $BUILD -eq 0 ] && [ $SUITE -eq 0 ] && [ "$DEMO_WITH" != 0 ] && [ "$DEMO_WIT
     CONFIRMED=yes
 fi
 say "CONFIRMED=$CONFIRMED"
+echo "$CONFIRMED $BUILD $SUITE $DEMO_WITH $DEMO_WITHOUT" >"$OUT/.confirm_state"
+[ "$PHASE" = confirm ] && exit 0
+else
+    read -r CONFIRMED BUILD SUITE DEMO_WITH DEMO_WITHOUT <"$OUT/.confirm_state" || { echo "no confirm state for $NAME"; exit 2; }
+    cd /verif
+fi
+rm -f "$OUT/.confirm_state"
 
 cp "$SRC/patch.diff" "$OUT/patch.diff"
 [ -f "$SRC/demo_test.rs" ] && cp "$SRC/demo_test.rs" "$OUT/demo_test.rs"
